@@ -7,7 +7,7 @@
    C15_align_operand; what stays outside is stated in the comment of C15_no_internal_exception. *)
 From Coq Require Import ZArith List String.
 From BB Require Import Base.PyBase Gen.Encoders Model.Items Model.Encode Model.Passes
-  Proofs.Layout Proofs.Pipeline Proofs.Errors Proofs.Examples Model.Parser Proofs.ParseErrors Proofs.EncSig Proofs.EncTotal Proofs.NoRaw Proofs.ParseOk.
+  Proofs.Layout Proofs.Pipeline Proofs.Errors Proofs.Examples Model.Parser Proofs.ParseErrors Proofs.EncSig Proofs.EncTotal Proofs.NoRaw Proofs.ParseOk Gen.ParseTable Proofs.ParseTable.
 Import ListNotations.
 Open Scope Z_scope.
 
@@ -156,6 +156,16 @@ Theorem C15_handlers_from_source :
   Gen.Criteria.select_converts_value_error = true.
 Proof. repeat split; reflexivity. Qed.
 Print Assumptions C15_handlers_from_source.
+
+(* the class -> mnemonic-table map of the well-formedness above (Proofs/EncSig.v class_sig) is the dispatch of asm.parse_item as
+   REGENERATED from the source (Gen/ParseTable.v): the parser builds each class from exactly that table and passes the operand
+   fields in the order of the generated class_fields *)
+Theorem C15_class_table_from_source :
+  forall cls names kinds, assoc_str cls EncSig.class_sig = Some (names, kinds) ->
+  exists tname args keys, In (names, tname, cls, args) Gen.ParseTable.parse_dispatch /\ NoRaw.class_keys cls = Some keys /\
+                          args = ("line" :: "name" :: keys)%string.
+Proof. exact ParseTable.class_sig_from_source. Qed.
+Print Assumptions C15_class_table_from_source.
 
 (* non-vacuity: a program with an undefined label fails with the assembler's error at the referring line *)
 Example C15_example :
